@@ -179,6 +179,17 @@ pub mod ghost {
         matches!(o, Ordering::Release | Ordering::AcqRel | Ordering::SeqCst)
     }
 
+    /// A protocol guarantee is checked without cutting the execution off behind it (Kani assumes an
+    /// asserted condition afterwards; the harness's own postconditions must still be evaluated on
+    /// executions that broke a guarantee): the check sits on one side of an arbitrary branch.
+    macro_rules! guarantee {
+        ($c:expr, $m:literal) => {
+            if kani::any::<bool>() {
+                assert!($c, $m);
+            }
+        };
+    }
+
     pub fn on_load(v: usize, order: Ordering) {
         if v == COMPLETE && at_least_acquire(order) {
             ACQ.store(true, SeqCst);
@@ -186,28 +197,28 @@ pub mod ghost {
     }
 
     pub fn on_cas(cur: usize, new: usize, succ: Ordering, r: Result<usize, usize>) {
-        assert!(cur == UNSET && new == LOADING, "[C18] guarantee: the only read-modify-write is the election UNSET -> LOADING");
+        guarantee!(cur == UNSET && new == LOADING, "[C18] guarantee: the only read-modify-write is the election UNSET -> LOADING");
         if r.is_ok() {
-            assert!(at_least_acquire(succ), "[C18] guarantee: the election compare-exchange is at least Acquire");
-            assert!(OWNER.load(SeqCst) == 0, "[C18] at most one thread is elected writer");
+            guarantee!(at_least_acquire(succ), "[C18] guarantee: the election compare-exchange is at least Acquire");
+            guarantee!(OWNER.load(SeqCst) == 0, "[C18] at most one thread is elected writer");
             OWNER.store(1, SeqCst);
         }
     }
 
     pub fn on_other_rmw(_what: &str) {
-        assert!(false, "[C18] guarantee: the state is modified only by the election compare-exchange and by the publishing store (an unconditional read-modify-write can overwrite COMPLETE)");
+        guarantee!(false, "[C18] guarantee: the state is modified only by the election compare-exchange and by the publishing store (an unconditional read-modify-write can overwrite COMPLETE)");
     }
 
     pub fn on_store(cur: usize, v: usize, order: Ordering) {
-        assert!(OWNER.load(SeqCst) == 1 && cur == LOADING, "[C18] guarantee: only the elected writer stores to the state, and only while LOADING");
-        assert!(v == COMPLETE, "[C18] guarantee: the only plain store publishes COMPLETE");
-        assert!(at_least_release(order), "[C18] guarantee: publication is at least Release");
-        assert!(WROTE.load(SeqCst), "[C18] guarantee: the cell is written before it is published");
+        guarantee!(OWNER.load(SeqCst) == 1 && cur == LOADING, "[C18] guarantee: only the elected writer stores to the state, and only while LOADING");
+        guarantee!(v == COMPLETE, "[C18] guarantee: the only plain store publishes COMPLETE");
+        guarantee!(at_least_release(order), "[C18] guarantee: publication is at least Release");
+        guarantee!(WROTE.load(SeqCst), "[C18] guarantee: the cell is written before it is published");
     }
 
     pub fn on_cell_access() {
         let writer = OWNER.load(SeqCst) == 1 && !ACQ.load(SeqCst);
-        assert!(writer || ACQ.load(SeqCst), "[C18] guarantee: the cell is touched only by the elected writer before publication, or after an Acquire load that saw COMPLETE");
+        guarantee!(writer || ACQ.load(SeqCst), "[C18] guarantee: the cell is touched only by the elected writer before publication, or after an Acquire load that saw COMPLETE");
         if OWNER.load(SeqCst) == 1 {
             WROTE.store(true, SeqCst);
         }
